@@ -43,6 +43,20 @@ class _Continue(Exception):
     pass
 
 
+class _GenStop(Exception):
+    """The consumer of an inlined generator left its loop (break)."""
+
+
+class GenV:
+    """A generator object: the generator function is run inline when it is
+    iterated, every ``yield`` handing control to the consuming loop."""
+
+    def __init__(self, func, args, kwargs):
+        self.func = func
+        self.args = args
+        self.kwargs = kwargs
+
+
 class _PathCut(Exception):
     """The path was abandoned (loop bound)."""
 
@@ -185,6 +199,7 @@ class Interp:
         self.on_method = None       # hook(term, name, args, kwargs)
         self.stubs = {}             # in-repo qualname -> behaviour
         self.on_yield = None        # hook(interp, value) for generators
+        self.guide = None           # evaluator(term) for lazy enumeration
         self.pure_methods = set()   # method names kept as pure terms
         self.ret_types = {'unicodedata.normalize': 'str', 're.sub': 'str',
                           're.Pattern.sub': 'str'}
@@ -206,6 +221,7 @@ class Interp:
         self.assumed = {}
         self.known_eq = {}
         self.known_ne = {}
+        self.iter_lens = {}
         self.exact = True
         self.notes = []
         self.steps = 0
@@ -282,7 +298,28 @@ class Interp:
         b = self.truth_known(v)
         if b is not None:
             return b
+        if self.guide is not None:
+            g = self._guided(v)
+            if g is not None:
+                return g
         return self.assume(v)
+
+    def _guided(self, v):
+        """Lazy path enumeration: the branch is chosen by evaluating the
+        condition term on the current valuation (recorded as assumption)."""
+        from .termeval import CannotEval, Raised
+        neg = False
+        t = v
+        while isinstance(t, T) and t.op == 'not':
+            t = t.args[0]
+            neg = not neg
+        try:
+            val = bool(self.guide(t))
+        except (CannotEval, Raised):
+            return None
+        self.assumed[t] = val
+        self.assumptions.append((t, val))
+        return (not val) if neg else val
 
     def truth_known(self, v):
         if isinstance(v, K):
@@ -365,7 +402,10 @@ class Interp:
         if isinstance(f, FuncRef):
             stub = self.stubs.get(f.qualname)
             if stub is not None:
-                return stub(self, list(args), dict(kwargs))
+                a = list(args)
+                if f.bound is not None:
+                    a = [f.bound] + a
+                return stub(self, a, dict(kwargs))
             return self.call_func(f, list(args), kwargs)
         if isinstance(f, ClassRef):
             return self.instantiate(f, list(args), kwargs)
@@ -401,6 +441,18 @@ class Interp:
         may = self.call_raises.get(name)
         if not may:
             return
+        if self.guide is not None:
+            from .termeval import CannotEval, Raised
+            try:
+                self.guide(t)
+                self.assumptions.append((T('defined', t), True))
+                return
+            except Raised as r:
+                if r.name in may:
+                    self.assumptions.append((T('raises', t, r.name), True))
+                    raise AbsRaise(T('exc', r.name, t))
+            except CannotEval:
+                pass
         c = self.choose(len(may) + 1)
         if c > 0:
             self.assumptions.append((T('raises', t, may[c - 1]), True))
@@ -455,7 +507,9 @@ class Interp:
             finally:
                 self.frames.pop()
         if _is_generator(node) and self.on_yield is None:
-            return self.opaque_call(f.qualname, f, args, kwargs)
+            if getattr(f, 'is_ctxmgr', False):
+                return self.opaque_call(f.qualname, f, args, kwargs)
+            return GenV(f, args, kwargs)
         fr = Frame(f, env, len(self.frames))
         self.frames.append(fr)
         try:
@@ -766,8 +820,49 @@ class Interp:
             except _Continue:
                 continue
 
+    def run_generator(self, gen, consume):
+        """Run generator *gen* inline; *consume(value)* is called at every
+        yield (it may raise _GenStop to abandon the generator)."""
+        saved = self.on_yield
+
+        def on_yield(interp, v):
+            self.on_yield = saved
+            try:
+                consume(v)
+            finally:
+                self.on_yield = on_yield
+            return K(None)
+        self.on_yield = on_yield
+        try:
+            f = gen.func
+            unbound = FuncRef(f.node, f.module, f.cls, None, f.closure,
+                              f.name)
+            self.call_func(unbound, list(gen.args), gen.kwargs)
+        except _GenStop:
+            pass
+        finally:
+            self.on_yield = saved
+
     def st_For(self, s, fr):
         it = self.eval(s.iter, fr)
+        if isinstance(it, GenV):
+            broke = []
+
+            def consume(v):
+                self.assign(s.target, v, fr)
+                try:
+                    self.exec_block(s.body, fr)
+                except _Break:
+                    broke.append(True)
+                    raise _GenStop()
+                except _Continue:
+                    pass
+            self.run_generator(it, consume)
+            if not broke:
+                self.exec_block(s.orelse, fr)
+            return
+        if isinstance(it, T) and self._search_loop(s, it, fr):
+            return
         items = self.iterate(it)
         for x in items:
             self.assign(s.target, x, fr)
@@ -778,6 +873,67 @@ class Interp:
             except _Continue:
                 continue
         self.exec_block(s.orelse, fr)
+
+    def _search_loop(self, s, it, fr):
+        """Exact summary of the idiom
+        ``for x in S: if P(x): <constant assignments>; break``
+        (a search loop): one fork on ``exists x in S: P(x)``."""
+        if s.orelse or len(s.body) != 1 or not isinstance(s.body[0], ast.If):
+            return False
+        test_if = s.body[0]
+        if test_if.orelse or not test_if.body or \
+                not isinstance(test_if.body[-1], ast.Break) or \
+                not isinstance(s.target, ast.Name):
+            return False
+        for st in test_if.body[:-1]:
+            if not (isinstance(st, ast.Assign) and
+                    all(isinstance(t, ast.Name) for t in st.targets) and
+                    isinstance(st.value, ast.Constant)):
+                return False
+        self.fresh_n += 1
+        ph = T('ph', self.fresh_n)
+        if self.types.get(it) == 'str':
+            self.types[ph] = 'str'
+        try:
+            test = self._pure_term(test_if.test, {s.target.id: ph}, fr)
+        except Inexact:
+            return False
+        cond = T('exists', it, ph, test)
+        if self.truth(cond):
+            self.exec_block(test_if.body[:-1], fr)
+        return True
+
+    def _pure_term(self, e, binding, fr):
+        """Expression -> term without forking (only the shapes a search
+        loop's test uses)."""
+        from . import models
+        if isinstance(e, ast.Name):
+            if e.id in binding:
+                return binding[e.id]
+            return self.termify(self.eval(e, fr))
+        if isinstance(e, ast.Constant):
+            return K(e.value)
+        if isinstance(e, ast.BoolOp):
+            op = 'and' if isinstance(e.op, ast.And) else 'or'
+            return T(op, *[self._pure_term(v, binding, fr)
+                           for v in e.values])
+        if isinstance(e, ast.UnaryOp) and isinstance(e.op, ast.Not):
+            return T('not', self._pure_term(e.operand, binding, fr))
+        if isinstance(e, ast.Compare) and len(e.ops) == 1:
+            a = self._pure_term(e.left, binding, fr)
+            b = self._pure_term(e.comparators[0], binding, fr)
+            sym = models.CMP_SYM[type(e.ops[0])]
+            neg = sym in ('!=', 'not in', 'is not')
+            sym = {'!=': '==', 'not in': 'in', 'is not': 'is'}.get(sym, sym)
+            t = T('cmp', sym, a, b)
+            return T('not', t) if neg else t
+        if isinstance(e, ast.Call) and isinstance(e.func, ast.Attribute) \
+                and not e.keywords and \
+                e.func.attr in models.PURE_STR_METHODS:
+            base = self._pure_term(e.func.value, binding, fr)
+            return T('mcall', base, e.func.attr,
+                     *[self._pure_term(a, binding, fr) for a in e.args])
+        raise Inexact('test of the loop is not a pure expression')
 
     def iterate(self, it):
         """Concrete list of abstract elements, or a bounded symbolic
@@ -799,6 +955,10 @@ class Interp:
                 if len(it.v) > self.world.unroll_bound:
                     raise Inexact('range too long to unroll')
                 return [K(i) for i in it.v]
+        if isinstance(it, GenV):
+            out = []
+            self.run_generator(it, out.append)
+            return out
         if isinstance(it, Obj) and '__iter_items__' in it.fields:
             return list(it.fields['__iter_items__'])
         if isinstance(it, T):
@@ -809,13 +969,30 @@ class Interp:
                 if isinstance(fixed, list):
                     return fixed
                 n = fixed
+            elif it in self.iter_lens:
+                n = self.iter_lens[it]
+            elif self.guide is not None and self._guided_len(it) is not None:
+                n = self._guided_len(it)
+                self.iter_lens[it] = n
+                self.assumptions.append((T('len', it), n))
             else:
                 n = self.choose(self.world.sym_iter_max + 1)
+                self.iter_lens[it] = n
                 self.assumptions.append((T('len', it), n))
                 if n == self.world.sym_iter_max:
                     self.inexact('symbolic iteration bounded at %d' % n)
             return [T('elem', it, K(i)) for i in range(n)]
         raise Inexact('iteration over %s' % type(it).__name__)
+
+    def _guided_len(self, it):
+        from .termeval import CannotEval, Raised
+        try:
+            n = len(self.guide(it))
+        except (CannotEval, Raised, TypeError):
+            return None
+        if n > self.world.unroll_bound:
+            return None
+        return n
 
     def st_With(self, s, fr):
         mgrs = []
@@ -1232,6 +1409,17 @@ def _load(t):
 
 
 def _is_generator(node):
+    r = getattr(node, '_sa_is_gen', None)
+    if r is None:
+        r = _is_generator_uncached(node)
+        try:
+            node._sa_is_gen = r
+        except AttributeError:
+            pass
+    return r
+
+
+def _is_generator_uncached(node):
     for n in ast.walk(node):
         if isinstance(n, (ast.Yield, ast.YieldFrom)):
             # not inside a nested def
